@@ -14,7 +14,7 @@ func init() {
 		ID:    "C03",
 		Title: "Crash recovery is atomic, prefix-consistent and repeatable",
 		Rules: []string{"C03.R1", "C03.R2", "C03.R3", "C12.R3", "C12.R4", "C01.R2", "C02.R2", "C02.R5", "C13.R2"},
-		Decides: "the shape of the recovery protocol on every path: a snapshot that fails to load sends control back to the loop over the listed snapshots (never out of the open call), open fails only when nothing loaded; with CRC validation on, a snapshot is returned only behind the true edge of bytes.Equal(computed, stored) where the computed sum is that of the hashing reader the decoder actually read through and both ranges are derived from Len()-crcWidth; the default configuration validates; the writer side hashes every byte and writes the sum last; segment ids start above every listed segment file and are only advanced atomically; snapshot epochs handed to introductions are never handed out twice; no mapped byte is used after its unmap and no length read from a file sizes an allocation unchecked (shared with C12); segments precede the snapshot naming them and rewrites truncate (shared with C02/C13).",
+		Decides: "the shape of the recovery protocol on every path: a snapshot that fails to load sends control back to the loop over the listed snapshots (never out of the open call), open fails only when nothing loaded; with CRC validation on, a snapshot is returned only behind the true edge of bytes.Equal(computed, stored) where the computed sum is that of the hashing reader the decoder actually read through and both ranges are derived from Len()-crcWidth; the default configuration validates; the writer side hashes every byte and writes the sum last; segment ids start above every listed segment file and are only advanced atomically; snapshot epochs handed to introductions are never handed out twice; no mapped byte is used after its unmap and no length read from a file sizes an allocation unchecked (shared with C12); segments precede the snapshot naming them and rewrites truncate (shared with C02/C13). the checksum comparison covers all crcWidth bytes; the stand-in snapshot of an in-memory merge lists only the persisted snapshot's own elements or literals with a nil deleted set (C02.R5, C01.R2).",
 		NotCovered: "that the recovered CONTENT equals a prefix of the applied batches (runtime sets of documents); what a torn file looks like on a particular file system.",
 	})
 	registerRule(&RuleInfo{ID: "C03.R1", Title: "unloadable snapshots are skipped, open fails only when nothing loaded", Floor: 2, Run: ruleC03R1,
@@ -149,7 +149,7 @@ func ruleC03R2(c *Ctx) {
 	for _, fn := range snapshotLoaders(c.Program) {
 		name := FuncName(fn)
 		var validateLoad ssa.Value
-		var hashMk, readCall, eqCall, dataRead, limit *ssa.Call
+		var hashMk, readCall, limit *ssa.Call
 		var data ssa.Value
 		eachInstr(fn, func(in ssa.Instruction) {
 			if u, ok := in.(*ssa.UnOp); ok && u.Op == token.MUL && isFieldAddr(u.X, fValidate) {
@@ -165,16 +165,52 @@ func ruleC03R2(c *Ctx) {
 				hashMk = ci
 			case cc.StaticCallee() == readFrom:
 				readCall = ci
-			case isPkgFunc(cc, "bytes", "Equal"):
-				eqCall = ci
 			case isPkgFunc(cc, "io", "LimitReader"):
 				limit = ci
 			case a.isDirCall(cc, a.DirLoad, a.KindSnapshot):
 				data = resultValue(ci, 0)
-			case cc.StaticCallee() != nil && cc.StaticCallee().Name() == "Read" && cc.StaticCallee().Signature.Recv() != nil && data != nil && len(cc.Args) == 3 && cc.Args[0] == data:
-				dataRead = ci
 			}
 		})
+		// the comparison of the computed sum with the file trailer: in the loader itself, or in a
+		// verifier helper that receives the loaded data
+		findCmp := func(f *ssa.Function, dataVal ssa.Value) (eq, rd *ssa.Call) {
+			eachInstr(f, func(in ssa.Instruction) {
+				ci, ok := in.(*ssa.Call)
+				if !ok {
+					return
+				}
+				cc := ci.Common()
+				switch {
+				case isPkgFunc(cc, "bytes", "Equal"):
+					eq = ci
+				case cc.StaticCallee() != nil && cc.StaticCallee().Name() == "Read" && cc.StaticCallee().Signature.Recv() != nil && dataVal != nil && len(cc.Args) == 3 && (cc.Args[0] == dataVal || sameBase(cc.Args[0], dataVal)):
+					rd = ci
+				}
+			})
+			return
+		}
+		cmpFn, cmpData := fn, data
+		var helperCall *ssa.Call
+		eqCall, dataRead := findCmp(fn, data)
+		if (eqCall == nil || dataRead == nil) && data != nil {
+			eachInstr(fn, func(in ssa.Instruction) {
+				ci, ok := in.(*ssa.Call)
+				if !ok || helperCall != nil {
+					return
+				}
+				h := ci.Common().StaticCallee()
+				if h == nil || h.Blocks == nil || funcPkgPath(h) != pkgIndex || fnErrIdx(h) < 0 {
+					return
+				}
+				for i, arg := range ci.Common().Args {
+					if (arg == data || sameBase(arg, data)) && i < len(h.Params) {
+						if e2, r2 := findCmp(h, h.Params[i]); e2 != nil && r2 != nil {
+							helperCall, cmpFn, cmpData, eqCall, dataRead = ci, h, h.Params[i], e2, r2
+						}
+					}
+				}
+			})
+		}
 		pos := c.Pos(fn.Pos())
 		if validateLoad == nil || hashMk == nil || readCall == nil || eqCall == nil || dataRead == nil || limit == nil {
 			c.Violate("checksum validation present in "+name, pos, fmt.Sprintf("the loader lacks a part of the validation (config test %v, hashing reader %v, decoder call %v, bytes.Equal %v, trailer read %v, limit reader %v)",
@@ -184,10 +220,37 @@ func ruleC03R2(c *Ctx) {
 		// (a) path rule: on validating paths a non-nil snapshot is returned only behind Equal == true
 		const fEq uint64 = 1
 		var problems []string
+		if helperCall != nil {
+			// the helper's contract: a possibly-nil error only behind the true edge of the comparison
+			hei := fnErrIdx(cmpFn)
+			hx := &Explorer{Fn: cmpFn}
+			hx.Outcomes = func(ci ssa.CallInstruction, st *PState) []Outcome {
+				if ci == ssa.CallInstruction(eqCall) {
+					return []Outcome{{Results: []Tri{TriYes}, Flags: fEq}, {Results: []Tri{TriNo}}}
+				}
+				return nil
+			}
+			hx.OnReturn = func(r *ssa.Return, st *PState) {
+				if hei < len(r.Results) && st.Eval(r.Results[hei]) != TriYes && st.Flags&fEq == 0 {
+					problems = append(problems, "the verifier "+FuncName(cmpFn)+" can return a nil error at "+c.Pos(r.Pos())+" without the comparison having succeeded")
+				}
+			}
+			hx.Run()
+			if hx.Exceeded {
+				c.Undecided("snapshot accepted only behind the checksum in "+name, pos, "path exploration did not finish")
+				continue
+			}
+		}
 		ex := &Explorer{Fn: fn, Keep: map[ssa.Value]bool{validateLoad: true}}
 		ex.Outcomes = func(ci ssa.CallInstruction, st *PState) []Outcome {
-			if ci == ssa.CallInstruction(eqCall) {
+			if helperCall == nil && ci == ssa.CallInstruction(eqCall) {
 				return []Outcome{{Results: []Tri{TriYes}, Flags: fEq}, {Results: []Tri{TriNo}}}
+			}
+			if helperCall != nil && ci == ssa.CallInstruction(helperCall) {
+				n := helperCall.Common().Signature().Results().Len()
+				okR, badR := make([]Tri, n), make([]Tri, n)
+				okR[fnErrIdx(cmpFn)], badR[fnErrIdx(cmpFn)] = TriNo, TriYes
+				return []Outcome{{Results: okR, Flags: fEq}, {Results: badR}}
 			}
 			return nil
 		}
@@ -231,6 +294,18 @@ func ruleC03R2(c *Ctx) {
 			return f != nil && f.Name() == "Sum32" && f.Signature.Recv() != nil && namedOf(f.Signature.Recv().Type()) == hashReader &&
 				dependsOn(ci.Common().Args[0], func(y ssa.Value) bool { return y == ssa.Value(hashMk) })
 		}
+		// what counts as "the computed sum" inside the function that compares: the Sum32 call itself,
+		// or the helper's parameter that the loader fills with it
+		isSumHere := isSum
+		if helperCall != nil {
+			sumParams := map[ssa.Value]bool{}
+			for i, arg := range helperCall.Common().Args {
+				if i < len(cmpFn.Params) && dependsOn(arg, isSum) {
+					sumParams[cmpFn.Params[i]] = true
+				}
+			}
+			isSumHere = func(x ssa.Value) bool { return sumParams[x] }
+		}
 		// computed side: a buffer filled by PutUint32(buf, Sum32()) -- find the PutUint32 call on the same buffer
 		args := eqCall.Common().Args
 		computedOK, storedOK := false, false
@@ -239,7 +314,7 @@ func ruleC03R2(c *Ctx) {
 				storedOK = true
 				continue
 			}
-			eachInstr(fn, func(in ssa.Instruction) {
+			eachInstr(cmpFn, func(in ssa.Instruction) {
 				ci, ok := in.(*ssa.Call)
 				if !ok {
 					return
@@ -248,7 +323,7 @@ func ruleC03R2(c *Ctx) {
 				if f == nil || f.Name() != "PutUint32" || len(ci.Common().Args) < 3 {
 					return
 				}
-				if sameBufferValue(ci.Common().Args[1], arg) && dependsOn(ci.Common().Args[2], isSum) {
+				if sameBufferValue(ci.Common().Args[1], arg) && dependsOn(ci.Common().Args[2], isSumHere) {
 					computedOK = true
 				}
 			})
@@ -276,34 +351,44 @@ func ruleC03R2(c *Ctx) {
 			"one operand is filled from Sum32() of the hashing reader the decoder read through, the other is read from the loaded data",
 			fmt.Sprintf("the comparison does not compare the computed checksum (ok=%v) with the stored one (ok=%v)", computedOK, storedOK))
 		// (c) both ranges derive from Len()-crcWidth
-		isLenMinusWidth := func(v ssa.Value) bool {
+		isLenMinusWidthOf := func(v ssa.Value, d ssa.Value) bool {
 			v = stripConv(v)
 			b, ok := v.(*ssa.BinOp)
 			if !ok || b.Op != token.SUB {
 				return false
 			}
 			n, okc := constInt(b.Y)
-			return okc && n == crcWidth && isDataLen(b.X, data)
+			return okc && n == crcWidth && isDataLen(b.X, d)
 		}
-		limOK := isLenMinusWidth(limit.Common().Args[1]) && dependsOn(limit.Common().Args[0], func(y ssa.Value) bool {
+		limOK := isLenMinusWidthOf(limit.Common().Args[1], data) && dependsOn(limit.Common().Args[0], func(y ssa.Value) bool {
 			ci, ok := y.(*ssa.Call)
 			return ok && len(ci.Common().Args) == 1 && ci.Common().Args[0] == data
 		})
 		c.Check(limOK, "hashed range is [0, Len()-crcWidth) in "+name, c.Pos(limit.Pos()), "LimitReader(data.Reader(), Len()-crcWidth)", "the decoder's input is not limited to Len()-crcWidth of the loaded data")
-		rdOK := isLenMinusWidth(dataRead.Common().Args[1]) && isDataLen(dataRead.Common().Args[2], data)
+		rdOK := isLenMinusWidthOf(dataRead.Common().Args[1], cmpData) && isDataLen(dataRead.Common().Args[2], cmpData)
 		// Len()-crcWidth may be negative for a torn file: the range read must sit behind a successful decode or a length guard
-		guardedRead := onSuccessEdge(readCall, dataRead)
-		eachInstr(fn, func(in ssa.Instruction) {
-			iff, ok := in.(*ssa.If)
-			if !ok || !iff.Block().Dominates(dataRead.Block()) {
-				return
-			}
-			if b, ok := iff.Cond.(*ssa.BinOp); ok && (b.Op == token.LSS || b.Op == token.LEQ || b.Op == token.GTR || b.Op == token.GEQ) {
-				if dependsOn(b.X, func(y ssa.Value) bool { return isDataLen(y, data) }) || dependsOn(b.Y, func(y ssa.Value) bool { return isDataLen(y, data) }) {
-					guardedRead = true
+		var readSite ssa.Instruction = dataRead
+		if helperCall != nil {
+			readSite = helperCall
+		}
+		guardedRead := onSuccessEdge(readCall, readSite)
+		lenGuard := func(f *ssa.Function, d ssa.Value, target ssa.Instruction) {
+			eachInstr(f, func(in ssa.Instruction) {
+				iff, ok := in.(*ssa.If)
+				if !ok || !iff.Block().Dominates(target.Block()) {
+					return
 				}
-			}
-		})
+				if b, ok := iff.Cond.(*ssa.BinOp); ok && (b.Op == token.LSS || b.Op == token.LEQ || b.Op == token.GTR || b.Op == token.GEQ) {
+					if dependsOn(b.X, func(y ssa.Value) bool { return isDataLen(y, d) }) || dependsOn(b.Y, func(y ssa.Value) bool { return isDataLen(y, d) }) {
+						guardedRead = true
+					}
+				}
+			})
+		}
+		lenGuard(fn, data, readSite)
+		if helperCall != nil {
+			lenGuard(cmpFn, cmpData, dataRead)
+		}
 		c.Check(guardedRead, "trailer read cannot underflow in "+name, c.Pos(dataRead.Pos()), "data.Read(Len()-crcWidth, ..) runs only after the decoder accepted the (Len()-crcWidth)-limited input, or behind a length comparison",
 			"the stored checksum is read at offset Len()-crcWidth without a preceding successful decode or length check: a torn snapshot file shorter than the checksum makes open panic (slice bounds out of range) instead of skipping it")
 		c.Check(rdOK, "trailer range is [Len()-crcWidth, Len()) in "+name, c.Pos(dataRead.Pos()), "data.Read(Len()-crcWidth, Len())", "the stored checksum is not read from the last crcWidth bytes")
